@@ -152,3 +152,29 @@ package journal
 //@   loop 5 invariant [uid-is-key] forall u string :: has(trips, u) ==> trips[u].TripUID == u
 //@   loop 5 invariant [ids-sorted] forall a int, b int :: 0 <= a && a < b && b < len(tripIDs) ==> tripIDs[a] <= tripIDs[b]
 //@   loop 5 invariant [one-per-id] len(j.Trips) == $i && (forall k int :: 0 <= k && k < $i ==> j.Trips[k].TripUID == tripIDs[k])
+
+// ----------------------------------------------------------------------------------------------------------------
+// C19 — the directory source. goodFile: the entry can be read and parses as GTFS realtime (the file system is
+// assumed static during a replay: os.ReadFile is a function of the path).
+//@ pure func goodFile(dir string, name string) bool = readable(pathJoin(dir, name)) && pbOK(fileContent(pathJoin(dir, name)))
+
+//@ func NewDirectoryGtfsrtSource
+//@   props C19 C05
+//@   ensures [source] result.1 == nil ==> result.0 != nil && fresh(result.0) && result.0.baseDir == baseDir
+//@   ensures [every-entry-listed] result.1 == nil ==> len(result.0.fileNames) == len(files)
+//@   ensures [name-order] result.1 == nil ==> (forall a int, b int :: 0 <= a && a < b && b < len(result.0.fileNames) ==> result.0.fileNames[a] <= result.0.fileNames[b])
+//@   loop 1 invariant source != nil && fresh(source) && len(source.fileNames) == $i && fresh(source.fileNames) && source.baseDir == baseDir
+
+//@ func (*DirectoryGtfsrtSource).Next
+//@   props C19 C05
+//@   requires s != nil
+//@   ensures [ends-only-when-exhausted] result == nil ==> len(s.fileNames) == 0
+//@   ensures [consumes-from-the-front] obj(s.fileNames) == obj(old(s.fileNames)) && off(s.fileNames) + len(s.fileNames) == off(old(s.fileNames)) + len(old(s.fileNames)) && len(s.fileNames) <= len(old(s.fileNames)) && s.baseDir == old(s.baseDir)
+//@   ensures [yields-a-good-file] result != nil ==> len(s.fileNames) < len(old(s.fileNames)) && goodFile(s.baseDir, old(s.fileNames)[len(old(s.fileNames)) - len(s.fileNames) - 1])
+//@   ensures [skips-only-bad-files] forall k int :: 0 <= k && k < len(old(s.fileNames)) - len(s.fileNames) - (result != nil ? 1 : 0) ==> !goodFile(s.baseDir, old(s.fileNames)[k])
+//@   ensures [names-untouched] forall k int :: 0 <= k && k < len(s.fileNames) ==> s.fileNames[k] == old(s.fileNames)[len(old(s.fileNames)) - len(s.fileNames) + k]
+//@   loop 1 invariant s != nil && obj(s.fileNames) == obj(old(s.fileNames)) && off(s.fileNames) + len(s.fileNames) == off(old(s.fileNames)) + len(old(s.fileNames)) && len(s.fileNames) <= len(old(s.fileNames)) && s.baseDir == old(s.baseDir)
+//@   loop 1 invariant forall k int :: 0 <= k && k < len(old(s.fileNames)) - len(s.fileNames) ==> !goodFile(s.baseDir, old(s.fileNames)[k])
+//@   loop 1 invariant forall k int :: 0 <= k && k < len(old(s.fileNames)) ==> old(s.fileNames)[k] == old(old(s.fileNames)[k])
+//@   loop 1 decreases len(s.fileNames)
+//@   assigns s.fileNames, s.t
